@@ -82,7 +82,6 @@ type peerPlan struct {
 	rnd       *rand.Rand
 	window    uint32 // receive window the peer grants
 	maxPkt    uint32
-	kexSeen   atomic.Int32 // key exchanges the peer has completed (updated while it reads)
 }
 
 // peerAuth implements RFC 4252 public-key authentication (ssh-ed25519 only)
@@ -167,7 +166,6 @@ func peerSession(p *sshref.Peer, plan *peerPlan, rep *peerReport) error {
 	opened, gotEOF := false, false
 	for !gotEOF {
 		pl, err := p.ReadPacket()
-		plan.kexSeen.Store(int32(len(p.Kexes)))
 		if err != nil {
 			return err
 		}
@@ -468,23 +466,37 @@ func subSize(r *rand.Rand, i int64) int {
 // (both ends and the loopback socket are ours).
 func (e *env) subStall(part, dim string, desc map[string]any) {
 	frozen, gs, dump := mon.Quiescent(3, 500*time.Millisecond, "testing.")
-	where := ""
+	var parked []string
 	for _, g := range gs {
 		if !g.Has("sshinterop.goClientCat") {
 			continue
 		}
 		for _, f := range g.Frames {
 			if strings.HasPrefix(f, "golang.org/x/crypto/") {
-				where = strings.TrimPrefix(f, "golang.org/x/crypto/") + "[" + g.State + "]"
+				parked = append(parked, strings.TrimPrefix(f, "golang.org/x/crypto/")+"["+g.State+"]")
 				break
 			}
 		}
 	}
+	slices.Sort(parked)
+	where := strings.Join(slices.Compact(parked), "+")
 	if frozen && where != "" {
+		e.stalls.Add(1)
+		e.m.Eval()
 		e.m.Violation("stall:"+part+":"+where+":"+dim, map[string]any{"case": desc, "dump": dump})
 		return
 	}
-	e.m.Inconclusive(fmt.Sprintf("%s case (%s) exceeded the %v watchdog (frozen=%v where=%q)", part, dim, subWatchdog, frozen, where))
+	e.m.Inconclusive(fmt.Sprintf("%s case (%s) exceeded the watchdog (frozen=%v where=%q)", part, dim, frozen, where))
+}
+
+// watchdog: generous; after a stall was already established in this process the
+// following cases are looked at sooner (the verdict never depends on it: only
+// the quiescence analysis decides).
+func (e *env) watchdog(normal time.Duration) time.Duration {
+	if e.stalls.Load() > 0 {
+		return 25 * time.Second
+	}
+	return normal
 }
 
 type subPeerCase struct {
@@ -506,13 +518,21 @@ func (e *env) runPeerCase(sc subPeerCase, i int64, r *rand.Rand) {
 			thr = 16384 // modular exponentiation per re-key: keep the number of re-keys moderate
 		}
 	}
-	// With size >= 2*thr the package has certainly requested a re-key once 2*thr
-	// bytes are written (request = first packet after the budget is used up);
-	// the upload then waits until the peer has completed it, so that re-keys
-	// started by the Go client are forced and counted exactly: the peer starts
-	// none before it has seen EOF.
+	// With size >= 2*thr+1 the package has certainly requested a re-key once
+	// 2*thr+1 bytes are written in small packets (request = first packet after
+	// the budget is used up); the upload then waits until the client has computed
+	// the new keys (observed through the KeyChange tap), so that re-keys started
+	// by the Go client are forced and counted exactly: the peer starts none
+	// before it has seen EOF. Forced cases therefore run through
+	// ssh.VerifNewClientConn (same code below the prologue), the others through
+	// the public ssh.NewClientConn.
 	forced := uint64(size) >= 2*thr+1
 	var kexAtUploadEnd int32
+	var clientKex atomic.Int32
+	var tap *ssh.VerifTap
+	if forced {
+		tap = &ssh.VerifTap{KeyChange: func(ssh.NegotiatedAlgorithms, ssh.VerifKexResult) { clientKex.Add(1) }}
+	}
 	plan := &peerPlan{hostKey: e.mt.peerHost, clientPub: e.mt.goEd.pub, exit: uint32(r.IntN(256)),
 		rnd: rand.New(rand.NewPCG(r.Uint64(), r.Uint64())), window: uint32([]int{16384, 65536, 1 << 20}[r.IntN(3)]), maxPkt: uint32([]int{4096, 16384, 32768}[r.IntN(3)])}
 	chunks := chunkSizes(r, size)
@@ -562,18 +582,21 @@ func (e *env) runPeerCase(sc subPeerCase, i int64, r *rand.Rand) {
 		m.Inconclusive("cannot dial loopback: " + err.Error())
 		return
 	}
-	done, pv, pstack, _ := mon.RunTimed(subWatchdog, func() {
-		hooks := workloadHooks{uploaded: func() { kexAtUploadEnd = plan.kexSeen.Load() }}
+	done, pv, pstack, _ := mon.RunTimed(e.watchdog(subWatchdog), func() {
+		hooks := workloadHooks{}
 		if forced {
 			waited := false
 			hooks.pace = func(written int) {
 				if !waited && uint64(written) >= 2*thr+1 {
 					waited = true
-					waitFor(func() bool { return plan.kexSeen.Load() >= 2 }, 60*time.Second)
+					waitFor(func() bool { return clientKex.Load() >= 2 }, 60*time.Second)
+				}
+				if written == len(payload) {
+					kexAtUploadEnd = clientKex.Load() // the peer has not seen EOF yet
 				}
 			}
 		}
-		crep = goClientCat(cconn, cfg, nil, payload, chunks, hooks)
+		crep = goClientCat(cconn, cfg, tap, payload, chunks, hooks)
 		cconn.Close()
 		prep = <-srvRep
 	})
@@ -670,8 +693,10 @@ func (e *env) runPeerCase(sc subPeerCase, i int64, r *rand.Rand) {
 		return
 	}
 	clientInit := int(kexAtUploadEnd) - 1
-	if forced && clientInit >= 1 {
-		m.Count("sub_peer_forced_client_rekey_seen", 1)
+	if forced {
+		m.Count("sub_peer_via_tapped_client_conn", 1)
+	} else {
+		m.Count("sub_peer_via_public_NewClientConn", 1)
 	}
 	m.Count("sub_peer_ok", 1)
 	m.Count("sub_peer_ok_"+sc.class, 1)
@@ -963,7 +988,7 @@ func (e *env) runTapCase(tc subTapCase, i int64, r *rand.Rand) {
 		cfg.HostKeyCallback = ssh.FixedHostKey(e.mt.host.plain[format].PublicKey())
 	}
 	var crep clientReport
-	done, pv, pstack, _ := mon.RunTimed(subWatchdog, func() {
+	done, pv, pstack, _ := mon.RunTimed(e.watchdog(subWatchdog), func() {
 		hooks := workloadHooks{}
 		if tc.class == "kex" {
 			// >= 4 thresholds of payload: a re-key is certainly requested; keep the
